@@ -591,6 +591,13 @@ def oracle_roll(case, R):
             R.check(not calls, "roll_function_called_although_ppc_met", f"sr/fmax={sr / fmax!r} ppc={ppc!r}")
         return
 
+    # ---- a record of one sample has nothing between its samples: every interpolating roll-off leaves it, and its
+    # sample rate, alone (all three roll functions guard their resampling with N > 1; 'none' is the reference)
+    if N == 1 and roll != "prefilter":
+        same = resp["sr"] == sr and np.array_equal(sh, sh_none, equal_nan=True) \
+            and np.array_equal(resp["hist"], resp_none["hist"], equal_nan=True) and np.array_equal(resp["t"], resp_none["t"])
+        R.check(same, "one_sample_record_changed_by_rolloff",
+                f"roll={roll} resp sr={resp['sr']} (record sr={sr}) sh={np.ravel(sh)[:3]} none={np.ravel(sh_none)[:3]}")
     # ---- a roll function is due: string option == documented function given as a callable
     calls = []
     if roll != "prefilter":
@@ -699,6 +706,25 @@ def roll_cases(draw):
         ppc = rmax * draw(st.sampled_from([1.5, 2.0, 1.01]))     # factor >= 3: see part 'linroll'
     return {"sig": spec, "sr": sr, "ratios": ratios, "Q": draw(st.sampled_from([0.5001, 1.0, 10.0, 25.0, 50.0])),
             "ppc": float(ppc), "stype": stype, "ic": ic, "peak": peak, "time": time, "rolloff": roll}
+
+
+def enum_roll_short(shard, nshards, tier):
+    """records of one, two and three samples through every roll-off function (the one-sample record is documented:
+    "any length >= 1"), under-sampled (sr / fmax < ppc) so that the roll function is asked, every response type and
+    initial-condition rule, zero / total windows"""
+    k = 0
+    for roll in ("none", None, "linear", "lanczos", "fft"):
+        for N in (1, 2, 3):
+            for stype in STYPES:
+                for ic in ICS:
+                    for time in ("primary", "total"):
+                        k += 1
+                        if k % nshards != shard:
+                            continue
+                        yield {"sig": {"N": N, "cols": [{"kind": "randint", "amp": 8, "p": 3, "off": 3}] * (1 + k % 2),
+                                       "seed": 900 + k, "scale": 1.0},
+                               "sr": 100.0, "ratios": [2.5, 20.0], "Q": 10.0, "ppc": 12.0, "stype": stype, "ic": ic,
+                               "peak": PEAKS[k % len(PEAKS)], "time": time, "rolloff": roll}
 
 
 # ---------------------------------------------------------------------- linear roll function itself
@@ -1037,6 +1063,7 @@ PARTS = [
     Part("grid", oracle_hist, enum=enum_grid, quick=(4, None), thorough=(16, None), exhaustive=True),
     Part("relations", oracle_rel, strategy=rel_cases, quick=(4, 60), thorough=(16, 190)),
     Part("rolloff", oracle_roll, strategy=roll_cases, quick=(4, 100), thorough=(16, 320)),
+    Part("rolloff_short", oracle_roll, enum=enum_roll_short, quick=(4, None), thorough=(4, None), exhaustive=True),
     Part("srs_frf", oracle_frf, strategy=frf_cases, quick=(1, 300), thorough=(8, 450)),
     Part("vrs", oracle_vrs, strategy=vrs_cases, quick=(1, 300), thorough=(8, 450)),
     # input classes that fail on the unchanged tree (genuine defects, see report / known_findings):
